@@ -95,6 +95,26 @@ def scan(state, groups, tid):
         # a star region narrower than a few internal cells: the structure is not resolved by the solver's table at this
         # time; no verdict is drawn from such a profile (counted in the evidence as pattern "unresolved")
         stats["pattern"] = "unresolved"
+        if not jwl:
+            # ... unless the table SHOULD resolve it: on ideal-gas data the closed-form solver says how wide the four constant
+            # states are on this very grid; if each spans a dozen cells and the general solver still does not show four
+            # plateaus, its profile is not a Riemann fan structure at all (GRAM.region: a region the grammar does not know)
+            from exactpack.solvers.riemann.ep_riemann import IGEOS_Solver
+            kwi = {k: v for k, v in kw.items() if k not in ("num_x_pts", "num_int_pts")}
+            with contextlib.redirect_stdout(io.StringIO()):
+                sol = G.call(IGEOS_Solver(**kwi), np.asarray(P["x"], float), t)
+            Q = {"x": P["x"], "p": np.asarray(sol["pressure"], float), "rho": np.asarray(sol["density"], float),
+                 "u": np.asarray(sol["velocity"], float), "e": np.asarray(sol["specific_internal_energy"], float)}
+            Q = {k: Q[k] for k in ["x"] + [k for k in NAMES if k in Q]}
+            try:
+                rq, _ = structure(Q)
+            except KeyError:
+                rq = []
+            if len(rq) == 4 and min(b - a for a, b in rq) >= 12:
+                stats["pattern"] = "not-a-fan-structure"
+                ev.append({"k": "Pt", "tid": tid, "reg": "unstructured", "fin": True, "smooth": False, "x": E.sl(1.0), "v": {}, "bal": {}})
+                ev.append({"k": "End", "tid": tid})
+                return ev, stats
         return [], stats
     regs = ["L", "Ls", "Rs", "R"]
     fans = {0: "fanL", 2: "fanR"}
